@@ -64,6 +64,9 @@ fn traj(g: &mut SplitMix64, ncases: usize) {
                 if cfg.slots.len() < cfg.cutoff {
                     stat("traj_container_grown", 1);
                 }
+                if n0 >= cfg.cutoff {
+                    stat(if heat { "traj_full_string_heatbath" } else { "traj_full_string_metropolis" }, 1);
+                }
                 emit(nontrivial, &input, &output, Some(sweep_oracle(&cfg, &out)));
             }
             Err(_) if tail_ops(&cfg) > 0 => {
@@ -132,6 +135,30 @@ fn pick_case(g: &mut SplitMix64) -> (Cfg, usize, usize) {
         }
         if cfg.slots.len() > cfg.cutoff {
             stat("prob_container_longer_than_sweep", 1);
+        }
+        let mut cfg = cfg;
+        if g.chance(1, 3) {
+            // FULL strings: every other empty slot of the sweep gets a diagonal operator (all of them, or all after a
+            // random position so that the string becomes full during the sweep), so that slot k is the last free slot:
+            // the insertion runs with L - n = 1 and the removal of the installed operator with n = L (L - n + 1 = 1)
+            while cfg.slots.len() < cfg.cutoff {
+                cfg.slots.push(None);
+            }
+            let from = if g.coin() { 0 } else { g.below(k as u64 + 1) as usize };
+            for p in from..cfg.cutoff {
+                if p == k || cfg.slots[p].is_some() {
+                    continue;
+                }
+                let st = state_at(&cfg, p);
+                let pos: Vec<usize> = (0..cfg.bonds.len()).filter(|b| diag_weight(&cfg.bonds[*b], &substate(&st, &cfg.bonds[*b].vars)) > 0.0).collect();
+                if let Some(bb) = pos.get(g.below(pos.len().max(1) as u64) as usize) {
+                    let tb = &cfg.bonds[*bb];
+                    cfg.slots[p] = Some(FastOp::diagonal(tb.vars.clone(), *bb, substate(&st, &tb.vars), tb.constant));
+                }
+            }
+            if count_ops(&cfg.slots) + 1 == cfg.cutoff {
+                stat("prob_string_full_except_examined_slot", 1);
+            }
         }
         return (cfg, k, b);
     }
@@ -314,6 +341,9 @@ fn prob_metropolis(g: &mut SplitMix64) -> bool {
     let x = cfg.beta * nb as f64 * w / ((cfg.cutoff - n_k) as f64);
     stat(if w == 0.0 { "mprob_zero_weight" } else if x > 1.0 { "mprob_insert_clipped" } else if x < 1.0 { "mprob_remove_clipped" } else { "mprob_both_unclipped" }, 1);
     stat(if k == 0 { "mprob_slot_first" } else { "mprob_slot_inside" }, 1);
+    if n_k + 1 == cfg.cutoff {
+        stat("mprob_last_free_slot_removal_at_n_equals_L", 1);
+    }
     if n_k != count_ops(&before) {
         stat("mprob_n_changed_before_slot", 1);
     }
@@ -406,7 +436,28 @@ fn prob_heatbath(g: &mut SplitMix64) -> bool {
     let j2 = match locate_h(&before2[..cfg2.cutoff], &base2, k) {
         Some(j2) => j2,
         None => {
-            emit(true, &input, "unlocatable", None);
+            // The draw structure of this run is not the expected one. Model-free fallback: with the words of the run up to
+            // ANY position followed by zero words (a zero word says yes to every gen_bool with p > 0), is the operator at
+            // slot k ever removed while the slots before it come out as in the run? If not, its removal probability is 0.
+            let removable = (0..=base2.log.len()).any(|j| {
+                let mut sc = base2.log[..j].to_vec();
+                sc.extend_from_slice(&[0u64; 8]);
+                run_sweep(&cfg2, Some(&table), sc, seed).map(|o| o.slots[..k] == base2.slots[..k] && o.slots[k].is_none()).unwrap_or(false)
+            });
+            let n2 = count_ops(&base2.slots[..k]) + count_ops(&before2[k..]);
+            let oracle = if removable {
+                None
+            } else {
+                Some(Err(format!(
+                    "the diagonal operator (bond {}) at slot {} is never removed (n = {} at that slot, L = {}): removal probability 0 but (L-n+1)/(L-n+1+beta*W) = {}",
+                    b,
+                    k,
+                    n2,
+                    cfg2.cutoff,
+                    (cfg2.cutoff as f64 - n2 as f64 + 1.0) / (cfg2.cutoff as f64 - n2 as f64 + 1.0 + cfg.beta * wtot)
+                )))
+            };
+            emit(true, &input, "unlocatable", oracle);
             return true;
         }
     };
@@ -438,6 +489,9 @@ fn prob_heatbath(g: &mut SplitMix64) -> bool {
     }
     stat(if w == 0.0 { "hprob_zero_weight" } else if w < mx[b] { "hprob_below_max" } else { "hprob_at_max" }, 1);
     stat(if k == 0 { "hprob_slot_first" } else { "hprob_slot_inside" }, 1);
+    if n_k + 1 == cfg.cutoff {
+        stat("hprob_last_free_slot_removal_at_n_equals_L", 1);
+    }
     if n_k != count_ops(&before) {
         stat("hprob_n_changed_before_slot", 1);
     }
